@@ -33,6 +33,11 @@ def handle : List String → Option String
       let B := if which = "old" then runCodeOld stages else runCode stages
       pure (showM3 B.A ++ " | " ++ showV3s [B.b] ++ " | " ++ showV3s (pts.map B.apply) ++ " | "
         ++ showV3s (pts.map (applySeq stages)))) rest
+  | "pipeline" :: rest => run (do
+      -- pipeline <whitebalancing> <wb stage> <colour stage> R C (x y z)*(R*C) -> corrected pixels, row major
+      let wbOn ← P.bool; let wb ← pStage; let col ← pStage
+      let r ← P.nat; let c ← P.nat; let px ← P.rep pV3 (r * c); P.done
+      pure (showV3s (pipeline wbOn wb col (chunk c px)).flatten)) rest
   | "residual" :: rest => run (do
       let A ← pM3; let b ← pV3
       let pairs ← P.list (do let s ← pV3; let d ← pV3; pure (s, d)); P.done
